@@ -164,10 +164,153 @@ theorem autoconv_at_centre (n c : ℕ) (p : ℕ → ℝ) (h : SymAbout n c p) :
   · have : p i = 0 := hout i (by omega)
     simp [hic, this]
 
-/-- hence the symmetry centre maximises the autoconvolution: `argmax/2 = c/2` up to ties -/
+/-- hence the symmetry centre maximises the autoconvolution (`centre_is_unique_argmax` below: strictly, for a non-zero profile) -/
 theorem centre_is_argmax (n c : ℕ) (p : ℕ → ℝ) (h : SymAbout n c p) (k : ℕ) :
     autoconv n p k ≤ autoconv n p c := by
   rw [autoconv_at_centre n c p h]; exact autoconv_le n p k
+
+/-- equality in a termwise-bounded sum forces equality of every term -/
+theorem eq_of_sum_eq {ι : Type} (s : Finset ι) (a b : ι → ℝ) (hle : ∀ i ∈ s, a i ≤ b i) (heq : ∑ i ∈ s, a i = ∑ i ∈ s, b i) :
+    ∀ i ∈ s, a i = b i := by
+  intro i hi
+  by_contra hne
+  have hlt : a i < b i := lt_of_le_of_ne (hle i hi) hne
+  have : ∑ j ∈ s, a j < ∑ j ∈ s, b j := Finset.sum_lt_sum hle ⟨i, hi, hlt⟩
+  linarith
+
+/-- if the autoconvolution attains the energy at `k`, the profile is mirror-symmetric about `k/2` (within the frame) and vanishes where the
+    mirror image falls outside -/
+theorem autoconv_eq_energy (n : ℕ) (p : ℕ → ℝ) (k : ℕ) (h : autoconv n p k = sumRange n (fun i => p i ^ 2)) :
+    ∀ i, i < n → (if i ≤ k ∧ k - i < n then p i = p (k - i) else p i = 0) := by
+  unfold autoconv at h
+  rw [sumRange_eq_finset, sumRange_eq_finset] at h
+  -- the three sums of the proof of `autoconv_le`
+  set A := ∑ i ∈ range n, (if i ≤ k ∧ k - i < n then p i * p (k - i) else 0) with hA
+  set B1 := ∑ i ∈ range n, (if i ≤ k ∧ k - i < n then p i ^ 2 else 0) with hB1
+  set B2 := ∑ i ∈ range n, (if i ≤ k ∧ k - i < n then p (k - i) ^ 2 else 0) with hB2
+  set E := ∑ i ∈ range n, p i ^ 2 with hE
+  have hAB : A ≤ (B1 + B2) / 2 := by
+    rw [hA, hB1, hB2, ← Finset.sum_add_distrib, Finset.sum_div]
+    apply Finset.sum_le_sum; intro i _
+    split_ifs
+    · nlinarith [sq_nonneg (p i - p (k - i))]
+    · simp
+  have h1 : B1 ≤ E := by
+    apply Finset.sum_le_sum; intro i _; split_ifs
+    · exact le_refl _
+    · exact sq_nonneg _
+  have h2 : B2 ≤ E := by
+    have e : B2 = ∑ i ∈ (range n).filter (fun i => i ≤ k ∧ k - i < n), p (k - i) ^ 2 := by rw [hB2, Finset.sum_filter]
+    rw [e]
+    have inj : ∀ a ∈ (range n).filter (fun i => i ≤ k ∧ k - i < n),
+        ∀ b ∈ (range n).filter (fun i => i ≤ k ∧ k - i < n), k - a = k - b → a = b := by
+      intro a ha b hb hab; simp at ha hb; omega
+    rw [← Finset.sum_image (f := fun j => p j ^ 2) inj]
+    apply Finset.sum_le_sum_of_subset_of_nonneg
+    · intro j hj
+      simp only [Finset.mem_image, Finset.mem_filter, Finset.mem_range] at hj
+      obtain ⟨a, ⟨_, _, ha⟩, rfl⟩ := hj
+      simp; exact ha
+    · intro j _ _; exact sq_nonneg _
+  have hB1E : B1 = E := by linarith
+  have hAeq : A = (B1 + B2) / 2 := by linarith
+  -- termwise
+  have t1 := eq_of_sum_eq (range n) (fun i => if i ≤ k ∧ k - i < n then p i ^ 2 else 0) (fun i => p i ^ 2)
+    (by intro i _; split_ifs; exact le_refl _; exact sq_nonneg _) hB1E
+  have t2 := eq_of_sum_eq (range n) (fun i => if i ≤ k ∧ k - i < n then p i * p (k - i) else 0)
+    (fun i => (if i ≤ k ∧ k - i < n then (p i ^ 2 + p (k - i) ^ 2) / 2 else 0))
+    (by intro i _; split_ifs; nlinarith [sq_nonneg (p i - p (k - i))]; exact le_refl _)
+    (by
+      rw [← hA, hAeq, hB1, hB2, ← Finset.sum_add_distrib, Finset.sum_div]
+      apply Finset.sum_congr rfl; intro i _; split_ifs <;> ring)
+  intro i hi
+  have hi' := Finset.mem_range.mpr hi
+  by_cases hc : i ≤ k ∧ k - i < n
+  · rw [if_pos hc]
+    have := t2 i hi'
+    simp only [if_pos hc] at this
+    nlinarith [sq_nonneg (p i - p (k - i))]
+  · rw [if_neg hc]
+    have := t1 i hi'
+    simp only [if_neg hc] at this
+    exact pow_eq_zero_iff (two_ne_zero) |>.mp this.symm
+
+/-- first moment of `p²` for a profile mirror-symmetric about `k/2` in the sense of `autoconv_eq_energy` -/
+theorem moment_of_mirror (n : ℕ) (p : ℕ → ℝ) (k : ℕ)
+    (hF : ∀ i, i < n → (if i ≤ k ∧ k - i < n then p i = p (k - i) else p i = 0)) :
+    2 * ∑ i ∈ range n, (i : ℝ) * p i ^ 2 = (k : ℝ) * ∑ i ∈ range n, p i ^ 2 := by
+  set D := (range n).filter (fun i => i ≤ k ∧ k - i < n) with hD
+  have off : ∀ i ∈ range n, i ∉ D → p i = 0 := by
+    intro i hi hn
+    have := hF i (Finset.mem_range.mp hi)
+    have hc : ¬ (i ≤ k ∧ k - i < n) := by
+      intro hc; exact hn (Finset.mem_filter.mpr ⟨hi, hc⟩)
+    rwa [if_neg hc] at this
+  have on : ∀ i ∈ D, p i = p (k - i) := by
+    intro i hi
+    obtain ⟨hi1, hc⟩ := Finset.mem_filter.mp hi
+    have := hF i (Finset.mem_range.mp hi1)
+    rwa [if_pos hc] at this
+  have r1 : ∑ i ∈ range n, (i : ℝ) * p i ^ 2 = ∑ i ∈ D, (i : ℝ) * p i ^ 2 := by
+    rw [hD, Finset.sum_filter]
+    apply Finset.sum_congr rfl
+    intro i hi
+    by_cases hc : i ≤ k ∧ k - i < n
+    · rw [if_pos hc]
+    · rw [if_neg hc, off i hi (by intro h; exact hc (Finset.mem_filter.mp h).2)]; ring
+  have r2 : ∑ i ∈ range n, p i ^ 2 = ∑ i ∈ D, p i ^ 2 := by
+    rw [hD, Finset.sum_filter]
+    apply Finset.sum_congr rfl
+    intro i hi
+    by_cases hc : i ≤ k ∧ k - i < n
+    · rw [if_pos hc]
+    · rw [if_neg hc, off i hi (by intro h; exact hc (Finset.mem_filter.mp h).2)]; ring
+  have flip : ∑ i ∈ D, (i : ℝ) * p i ^ 2 = ∑ i ∈ D, ((k - i : ℕ) : ℝ) * p i ^ 2 := by
+    apply Finset.sum_nbij' (fun i => k - i) (fun i => k - i)
+    · intro i hi; simp only [hD, Finset.mem_filter, Finset.mem_range] at hi ⊢; omega
+    · intro i hi; simp only [hD, Finset.mem_filter, Finset.mem_range] at hi ⊢; omega
+    · intro i hi; simp only [hD, Finset.mem_filter, Finset.mem_range] at hi; omega
+    · intro i hi; simp only [hD, Finset.mem_filter, Finset.mem_range] at hi; omega
+    · intro i hi
+      have hik : i ≤ k := by simp only [hD, Finset.mem_filter, Finset.mem_range] at hi; omega
+      have e : k - (k - i) = i := by omega
+      rw [e, on i hi]
+  rw [r1, r2]
+  have : 2 * ∑ i ∈ D, (i : ℝ) * p i ^ 2 = ∑ i ∈ D, ((i : ℝ) + ((k - i : ℕ) : ℝ)) * p i ^ 2 := by
+    rw [two_mul]; nth_rewrite 2 [flip]; rw [← Finset.sum_add_distrib]; apply Finset.sum_congr rfl; intro i _; ring
+  rw [this, Finset.mul_sum]
+  apply Finset.sum_congr rfl
+  intro i hi
+  have hik : i ≤ k := by simp only [hD, Finset.mem_filter, Finset.mem_range] at hi; omega
+  rw [Nat.cast_sub hik]; ring
+
+/-- **the symmetry centre is the only maximum** of the autoconvolution of a non-zero profile: at every other lag the value is strictly
+    smaller, so `argmax` (first or any) returns the centre — no ties -/
+theorem centre_is_unique_argmax (n c : ℕ) (p : ℕ → ℝ) (h : SymAbout n c p) (hp : ∃ i, p i ≠ 0) (k : ℕ) (hk : k ≠ c) :
+    autoconv n p k < autoconv n p c := by
+  have hle := centre_is_argmax n c p h k
+  rcases lt_or_eq_of_le hle with hlt | heq
+  · exact hlt
+  · exfalso
+    rw [autoconv_at_centre n c p h] at heq
+    have hF := autoconv_eq_energy n p k heq
+    have m1 := moment_of_mirror n p k hF
+    have hsq : SymAbout n c (fun i => p i ^ 2) := by
+      obtain ⟨hc, hsym, hout⟩ := h
+      exact ⟨hc, fun i hi => by simp only; rw [hsym i hi], fun i hi => by simp only; rw [hout i hi]; ring⟩
+    have m2 := moment_symmetric n c (fun i => p i ^ 2) hsq
+    have hE : 0 < ∑ i ∈ range n, p i ^ 2 := by
+      obtain ⟨i, hi⟩ := hp
+      have hin : i < n := by
+        by_contra hge
+        exact hi (h.2.2 i (by have := h.1; omega))
+      have hpos : 0 < p i ^ 2 := by positivity
+      exact lt_of_lt_of_le hpos (Finset.single_le_sum (f := fun j => p j ^ 2) (fun j _ => sq_nonneg _) (Finset.mem_range.mpr hin))
+    have : ((k : ℝ) - (c : ℝ)) * ∑ i ∈ range n, p i ^ 2 = 0 := by linarith
+    rcases mul_eq_zero.mp this with h0 | h0
+    · have : (k : ℝ) = (c : ℝ) := by linarith
+      exact hk (by exact_mod_cast this)
+    · linarith
 
 /-! non-vacuity: the profile 1,3,3,1 is symmetric about 3/2 -/
 example : SymAbout 5 3 (fun i => if i = 0 ∨ i = 3 then (1 : ℚ) else if i = 1 ∨ i = 2 then 3 else 0) := by
